@@ -322,4 +322,30 @@ theorem stepFix_ok {P : Params} (hP : P.Lawful) (J : Nat → Byte) (mv : Bool) (
       simp [stepFix, formatFix, this, step]
     rw [e]; exact byval _ hnf
 
+/-! ### String_Show into the String it shows -/
+
+theorem showChar_text_ne_nil (b : Byte) : (showChar b).text ≠ [] := by
+  unfold showChar; split <;> simp [Item.text]
+
+/-- `show_to(s, s, pos)` at a position inside the text: the block is never empty when the walk starts (it holds the opening
+    quote at least), so one `print_to` is made; if that `realloc` moves the block the next `*v` reads freed memory -/
+theorem showSelf_moved_ub {P : Params} (hP : P.Lawful) (J : Nat → Byte) (mv : Nat → Bool) (hmv : mv 1 = true) (fuel : Nat)
+    (s : Str) (hs : s.WF) (pos : Nat) (hpos : pos ≤ s.abs.length) :
+    ∃ r, showSelf P J mv (fuel + 2) s pos = some r ∧ r.out = .ub .useAfterFree := by
+  obtain ⟨c, r, rfl, hc, habs⟩ := hs.view
+  rw [habs] at hpos
+  obtain ⟨hb, _⟩ := format_in_buf hP J pos [34] c r hpos
+  have hst := buf_eq hb
+  obtain ⟨b, t, hbt, hb0⟩ : ∃ b t, c.take pos ++ [34] ++ [0] = b :: t ∧ b ≠ 0 := by
+    cases hq : c.take pos with
+    | nil => exact ⟨34, [0], by simp, by decide⟩
+    | cons a q =>
+      refine ⟨a, q ++ [34] ++ [0], by simp, ?_⟩
+      intro h0
+      have : (0 : Byte) ∈ c.take pos := by rw [hq, h0]; simp
+      exact not_mem_take hc pos this
+  have hb0' : (b == 0) = false := by simpa using hb0
+  simp only [showSelf, hst, hbt, showSelfLoop, List.getElem?_cons_zero, hb0', hmv]
+  exact ⟨_, rfl, rfl⟩
+
 end Cello.Str
